@@ -77,3 +77,52 @@ Example C05_nonvacuous :
   py_decode s1 (wire s2 v2) =
     Ok (VM [ (1, VL [VZ 1; VZ 2]); (2, VM [(1, VZ (-16))]); (3, VL [VM [(1, VB true)]]); (4, VZ 99) ]).
 Proof. vm_compute. repeat split; reflexivity. Qed.
+
+(* ---------------------------------------------------------------------------------------
+   C runtime (standard mode): the source-level model of lib/c/bitproto.c (CRt.v, skip
+   formulas translated into BPGen.GenC) over the descriptors of the renderer model.
+   Decode<S1>, given ANY buffer encoded with an evolved S2 and a zero-initialised struct,
+   fills the struct with exactly the projection of the value onto S1 (every integer two's
+   complement in its storage width) — in particular it never reads or writes out of bounds
+   (COk: the buffer is ceil(nbits S2 / 8) bytes) and everything after an extended region
+   is read from the right position. *)
+From BP Require Import CMem CRt CEncProofs CDecProofs CEvolveProofs CTop.
+From BPGen Require GenC.
+
+Theorem C05_c_forward_compat : forall t1 t2 v2,
+  c_schema t1 -> c_schema t2 -> evolvesb (norm t1) (norm t2) = true -> has_ty (norm t2) v2 = true ->
+  c_decode_ty LE LE t1 (wire t2 v2) = COk (store LE (norm t1) (proj (norm t1) v2)).
+Proof. exact c_forward_compat_le. Qed.
+Print Assumptions C05_c_forward_compat.
+
+(* the same for the BP_BIG_ENDIAN build on a big-endian host (storage in big-endian order) *)
+Theorem C05_c_forward_compat_be : forall t1 t2 v2,
+  c_schema t1 -> c_schema t2 -> evolvesb (norm t1) (norm t2) = true -> has_ty (norm t2) v2 = true ->
+  c_decode_ty BE BE t1 (wire t2 v2) = COk (store BE (norm t1) (proj (norm t1) v2)).
+Proof. exact c_forward_compat_be. Qed.
+Print Assumptions C05_c_forward_compat_be.
+
+(* cursor lemma, at every nesting depth and position: decoding node t1 at bit i of a stream
+   that holds an evolved t2 node there leaves ctx->i = i + nbits t2 *)
+Theorem C05_c_cursor : forall t1, cev_ok LE LE t1.
+Proof. exact c_cursor_le. Qed.
+Print Assumptions C05_c_cursor.
+
+(* the skip formulas and skip tests translated from lib/c/bitproto.c (C `/` on ints = Z.quot)
+   equal the Python ones on the decoder's domain (capacity positive, at least the 16 prefix
+   bits consumed) *)
+Theorem C05_c_formulas :
+  (forall i ahead, GenC.ms_ito i ahead = GenPy.message_ito i ahead) /\
+  (forall i ahead cap ci, 0 < cap -> i + 16 <= ci ->
+     GenC.ar_ito i ahead ci cap = GenPy.array_ito i ahead cap ci) /\
+  (forall ito ci, GenC.ms_ito_taken ito ci = GenPy.ito_taken ito ci) /\
+  (forall ito ci, GenC.ar_ito_taken ito ci = GenPy.ito_taken ito ci).
+Proof. exact c_formulas. Qed.
+Print Assumptions C05_c_formulas.
+
+Example C05_c_nonvacuous :
+  c_schema s1 /\ c_schema s2 /\ evolvesb (norm s1) (norm s2) = true /\ has_ty (norm s2) v2 = true /\
+  c_decode_ty LE LE s1 (wire s2 v2) = COk (store LE (norm s1) (proj (norm s1) v2)) /\
+  c_decode_ty LE LE s1 (wire s2 v2) =
+    COk (OS [ (1, OB [1; 2]); (2, OS [(1, OB [240])]); (3, OL [OS [(1, OB [1])]]); (4, OB [99]) ]).
+Proof. vm_compute. repeat split; reflexivity. Qed.
